@@ -128,7 +128,60 @@ func damage(r *rand.Rand, pk []*astits.Packet) []*astits.Packet {
 	return out
 }
 
+// beforePATCase: a capture joined just before the PAT: program map PIDs have already sent a whole table each. What such a PID
+// delivers may depend on where the PAT falls among ITS packets (the property's exception) — but not on whether another PID's
+// packets come before or after the PAT. Orders that keep every PID's own packets and the PAT in the same relative order must
+// give every PID the same sequence.
+func beforePATCase(c *mon.Ctx, idx int64, r *rand.Rand) {
+	a, b := uint16(0x100+r.IntN(0x400)), uint16(0x600+r.IntN(0x400))
+	mk := func(pid uint16, serial int) *astits.Packet {
+		sec := gen.SimpleSection(r, refts.KindPMT, serial, r.IntN(30))
+		return gen.BuildPacket(pid, uint8(serial), true, gen.NewPSIUnit(r, pid, serial, []*astits.PSISection{sec}, 0, false).Payload, nil, true)
+	}
+	pat := gen.SimpleSection(r, refts.KindPAT, 1, 0)
+	pat.Syntax.Data.PAT.Programs = []*astits.PATProgram{{ProgramNumber: 1, ProgramMapID: a}, {ProgramNumber: 2, ProgramMapID: b}}
+	if r.IntN(2) == 0 {
+		pat.Syntax.Data.PAT.Programs[0], pat.Syntax.Data.PAT.Programs[1] = pat.Syntax.Data.PAT.Programs[1], pat.Syntax.Data.PAT.Programs[0]
+	}
+	pp := gen.BuildPacket(0, 0, true, gen.NewPSIUnit(r, 0, 1, []*astits.PSISection{pat}, 0, false).Payload, nil, true)
+	a1, a2, a3, b1, b2, b3 := mk(a, 1), mk(a, 2), mk(a, 3), mk(b, 1), mk(b, 2), mk(b, 3)
+	// A's packets and the PAT keep their order (a1, PAT, a2, a3); B's packets move across the PAT
+	orders := map[string][]*astits.Packet{
+		"b-after-pat":       {a1, pp, b1, a2, b2, a3, b3},
+		"b-before-pat":      {a1, b1, pp, a2, b2, a3, b3},
+		"b-first":           {b1, a1, pp, b2, a2, b3, a3},
+		"b-wholly-after-a":  {a1, pp, a2, a3, b1, b2, b3},
+		"b-two-before-pat":  {b1, a1, b2, pp, a2, a3, b3},
+		"b-wholly-before-a": {b1, b2, b3, a1, pp, a2, a3},
+	}
+	var ref []*astits.DemuxerData
+	refName := ""
+	for _, name := range []string{"b-after-pat", "b-before-pat", "b-first", "b-wholly-after-a", "b-two-before-pat", "b-wholly-before-a"} {
+		stream := encodeAll(orders[name])
+		got, run := perPIDOut(stream)
+		c.Count("orders_with_tables_sent_before_the_pat")
+		if run.Panic != "" {
+			c.Violate("C07/panic", "before-pat", idx, run.Panic, map[string]any{"stream": mon.Hex(stream, 1500)})
+			return
+		}
+		if refName == "" {
+			ref, refName = got[a], name
+			continue
+		}
+		if d := comparePerPID(map[uint16][]*astits.DemuxerData{a: got[a]}, map[uint16][]*astits.DemuxerData{a: ref}, nil); d != "" {
+			c.Violate("C07/merge-changes-output:tables-before-the-pat", "before-pat", idx, fmt.Sprintf("pid %#x with order %s vs %s: %s", a, name, refName, d), map[string]any{"stream": mon.Hex(stream, 1500)})
+			return
+		}
+	}
+}
+
 func runC07(c *mon.Ctx) {
+	nb := c.Pick(300, 20000)
+	for i := int64(0); i < nb; i++ {
+		if c.Mine("before-pat", i) {
+			beforePATCase(c, i, c.Rng("before-pat", i))
+		}
+	}
 	n := c.Pick(400, 15000)
 	for i := int64(0); i < n; i++ {
 		if !c.Mine("models", i) {
